@@ -76,12 +76,21 @@ def check_history(col, hist, queries, forms):
     s = HostnameTrieSet()
     added = set()
     fn = "ural.classes.hostname_trie_set.HostnameTrieSet"
-    for h in hist:
+    for n, h in enumerate(hist):
         r = call(s.add, h)
         if r[0] != "ok":
             col.violation("add-total", fn + ".add", list(hist), list(r), "no exception")
             return
         added.add(toks(h))
+        if n + 1 < len(hist):
+            # queries BETWEEN the adds, on the same object: an answer given earlier must not stick once the set has grown
+            # ("after every prefix of the sequence all queries": the object is observed while it is being built)
+            for q in queries:
+                exp = ref_match(added, q)
+                r = call(s.match, forms[0] % q)
+                col.count("match-between-adds")
+                if r[0] != "ok" or r[1] is not exp:
+                    col.violation("match", fn + ".match", {"adds": list(hist[:n + 1]), "then": "queried between adds of " + repr(list(hist)), "url": forms[0] % q}, repr(r), exp)
     msg = rep_ok(s)
     col.count("rep-invariant")
     if msg:
@@ -105,6 +114,14 @@ def check_history(col, hist, queries, forms):
             if r[0] != "ok" or r[1] is not exp:
                 col.violation("match", fn + ".match", {"adds": list(hist), "url": url}, repr(r), exp)
     return added
+
+
+def urlhost(url):
+    from ural.utils import safe_urlsplit
+    try:
+        return safe_urlsplit(url).hostname or ""
+    except ValueError:
+        return ""
 
 
 def shard_worker(job):
@@ -133,20 +150,10 @@ def main():
         rp = json.load(open(a.replay))
         inp = rp["input"]
         if isinstance(inp, dict):
-            s_hist, url = inp["adds"], inp["url"]
-            s = HostnameTrieSet()
-            added = set()
-            for h in s_hist:
-                s.add(h)
-                added.add(toks(h))
-            from urllib.parse import urlsplit
-            from ural.utils import safe_urlsplit
-            host = safe_urlsplit(url).hostname or ""
-            exp = ref_match(added, host) if host else False
-            r = call(s.match, url)
-            col.count("match")
-            if r[0] != "ok" or r[1] is not exp:
-                col.violation("match", "HostnameTrieSet.match", inp, repr(r), exp)
+            # replay the whole history on one object, with the queries between the adds (an answer may depend on what was asked before)
+            import ast as _ast
+            full = _ast.literal_eval(inp["then"].split("adds of ", 1)[1]) if "then" in inp else inp["adds"]
+            check_history(col, tuple(full), H4, FORMS)
         else:
             check_history(col, tuple(inp), H4, FORMS)
         col.rule = "replay"
